@@ -281,6 +281,49 @@ class Gen:
                 parts.append(r.choice(["defined " + x, "defined(" + x + ")", "defined ( " + x + " )"]) + r.choice([" &&", " ||", ""]))
         return {"macros": ms, "input": " ".join(parts)}
 
+    def selfref_applied(self):
+        """a function-like macro whose replacement list contains its own name (or the name of a macro that is
+        being expanded around it) NOT followed by '(' - typically as the last token -, passed as an ARGUMENT to a
+        macro that applies its parameter: m(2), `m a` with a = (2), ID(x) followed by '(' in the source.
+        The name must stay painted (C11 6.10.3.4p2) although its own context has been popped and although the
+        scan that met it ended at the pre-expansion barrier."""
+        r = self.r
+        via = lambda: r.choice(["define", "define", "D"])
+        k = r.choice([0, 0, 0, 1, 2])
+        ms = []
+        if k == 0:      # direct: f(x) -> ... f
+            fb = r.choice(["x + f", "x f", "f", "x * f", "f + x", "x + f + x", "(x) f", "x + 1 + f"])
+            ms.append({"name": "f", "params": ["x"], "body": fb, "via": via()})
+        elif k == 1:    # indirect through a function-like macro that is still being expanded
+            ms.append({"name": "f", "params": ["x"], "body": r.choice(["g(x)", "g(x) + 1", "1 + g(x)"]), "via": via()})
+            ms.append({"name": "g", "params": ["x"], "body": r.choice(["x + f", "x f", "x + g", "f"]), "via": via()})
+        else:           # indirect through an object-like macro
+            ms.append({"name": "f", "params": ["x"], "body": r.choice(["x + h", "x h", "h"]), "via": via()})
+            ms.append({"name": "h", "params": None, "body": r.choice(["f", "1 + f", "f + 1"]), "via": via()})
+        shape = r.choice(["CALL", "CALL", "AP", "ID", "ID", "ID2", "TOP"])
+        arg = "f(" + r.choice(["1", "2", "p", "1 + 1"]) + ")"
+        tail = "(" + r.choice(["2", "3", "q", "1, 2"]) + ")"
+        if shape == "CALL":
+            ms.append({"name": "CALL", "params": ["m"], "body": r.choice(["m(2)", "m (3)", "m(2) + 1", "1 + m(2)", "m(m(2))"]), "via": via()})
+            inp = "CALL(" + arg + ")"
+        elif shape == "AP":
+            ms.append({"name": "AP", "params": ["m", "a"], "body": r.choice(["m a", "m a + 1"]), "via": via()})
+            inp = "AP(" + arg + "," + r.choice(["", " "]) + tail + ")"
+        elif shape == "ID":
+            ms.append({"name": "ID", "params": ["x"], "body": r.choice(["x", "x", "(x)", "1 + x"]) if r.random() < 0.8 else "x", "via": via()})
+            if ms[-1]["body"] == "(x)":
+                ms[-1]["body"] = "x"
+            inp = "ID(" + arg + ")" + r.choice(["", " "]) + tail
+        elif shape == "ID2":
+            ms.append({"name": "ID", "params": ["x"], "body": "x", "via": via()})
+            inp = "ID(ID(" + arg + "))" + tail
+        else:
+            inp = arg + tail
+        if r.random() < 0.3:
+            inp = inp + " " + r.choice(["+ 1", "+ f(1)", "* 2"])
+        r.shuffle(ms)
+        return {"macros": ms, "input": inp}
+
     def malformed(self):
         r = self.r
         c = self.case()
@@ -337,7 +380,9 @@ class C03(Check):
             "via #define or -D) whose bodies come from the property's grammar (identifiers, numbers, operators, parameter "
             "uses, #param, a##b chains, __VA_ARGS__, bare and called references to macros of the table incl. themselves), "
             "crossed with invocations with 0..n+2 arguments incl. empty, parenthesised and comma-in-parentheses arguments, "
-            "nested calls, bare function-like names and extra parenthesised groups after a call; an exhaustive block of "
+            "nested calls, bare function-like names and extra parenthesised groups after a call; a stream of painted "
+            "self-references (own name / name of an enclosing macro not followed by '(' in a replacement list) passed as "
+            "argument to a macro that applies its parameter (m(2), m a, ID(x)(...)); an exhaustive block of "
             "all tables {A:=b1; F(x):=b2} with bodies of <= 2 tokens; a malformed stream.  A case is non-trivial when the "
             "expansion differs from the input AND a function-like macro, a # / ## operator or a nested replacement took part")
     assumptions = ["token lists are produced by the real Lexer.tokenize on ASCII text (lexing itself is C17's subject)",
@@ -377,6 +422,13 @@ class C03(Check):
         for _ in range(n_ff):   # the fragment of C03_funlike_partial
             out.append(g.funlike_flat())
         self.hist["funlike_flat_block"] = n_ff
+        n_sr = 300 if quick else 5000
+        self._selfref = []
+        for _ in range(n_sr):   # painted self-reference applied to arguments later on
+            c = g.selfref_applied()
+            out.append(c)
+            self._selfref.append(c)
+        self.hist["selfref_applied_block"] = n_sr
         n_op = 200 if quick else 4000
         for _ in range(n_op):
             out.append(g.operand_only())
@@ -680,9 +732,74 @@ class C03(Check):
                     res["else"] = "p" in assoc[node]
         return [res.get("then"), res.get("else")]
 
+    @staticmethod
+    def pp_value(tokens):
+        """value of a fully expanded controlling expression made of decimal numbers, + - * ( ) and identifiers:
+        a remaining identifier is 0, a remaining `name ( ... )` is 0 (this is what ExpressionEvaluator and
+        ISO C 6.10.1p4 do); None when the expression is outside this little language"""
+        out, i = [], 0
+        while i < len(tokens):
+            t = tokens[i]
+            if re.fullmatch(r"[A-Za-z_]\w*", t):
+                if i + 1 < len(tokens) and tokens[i + 1] == "(":
+                    depth, j = 0, i + 1
+                    while j < len(tokens):
+                        depth += tokens[j] == "("
+                        depth -= tokens[j] == ")"
+                        if depth == 0:
+                            break
+                        j += 1
+                    if j >= len(tokens):
+                        return None
+                    i = j
+                out.append("0")
+            elif re.fullmatch(r"[0-9]+", t) and not (len(t) > 1 and t[0] == "0"):
+                out.append(t)
+            elif t in ("+", "-", "*", "(", ")"):
+                out.append(t)
+            else:
+                return None
+            i += 1
+        try:
+            v = eval(" ".join(out), {"__builtins__": {}}, {})   # noqa: S307 - digits and + - * ( ) only
+        except Exception:
+            return None
+        return v if isinstance(v, int) and abs(v) < 2 ** 31 else None
+
+    def selfref_if_tests(self):
+        """the self-reference stream through `#if (INPUT) == k` (finder.find): k is the value of S's expansion"""
+        n, bad = 0, []
+        limit = 40 if self.tier == "quick" else 400
+        spec_of = {self.key(c): sa for c, sa in self._spec_log}
+        for c in getattr(self, "_selfref", []):
+            if n >= limit:
+                break
+            sa = spec_of.get(self.key(c))
+            if sa is None or sa[0] != "Ok":
+                continue
+            k = self.pp_value(sa[1])
+            if k is None or k < 0:
+                continue
+            try:
+                a = self.if_observation(c, k)
+                b = self.if_observation(c, k + 1)
+            except Exception as e:  # noqa
+                a, b = ["EXC", type(e).__name__], None
+            n += 1
+            if a != [True, False] or b != [False, True]:
+                bad.append({"case": c, "k": k, "eq": a, "neq": b, "spec": sa[1]})
+        self.hist["selfref_if_route_cases"] = n
+        self.hist["selfref_if_route_disagreements"] = len(bad)
+        if bad:
+            # the #if route disagrees with S: a violation candidate that expand() must show as well;
+            # reported here so that the route itself is never silently wrong
+            return [f"#if route: `#if (INPUT) == k` disagrees with S on {len(bad)} of {n} self-reference cases: {json.dumps(bad[0])}"]
+        return []
+
     def self_tests(self):
         problems = []
         problems += self.if_tests()
+        problems += self.selfref_if_tests()
         problems += self.include_tests()
         problems += self.gcc_tests()
         return problems
@@ -776,9 +893,14 @@ class C03(Check):
             return ["gcc not available: S not validated against an external preprocessor"]
         d = common.scratch() / "c03gcc"
         d.mkdir(parents=True, exist_ok=True)
-        limit = 250 if self.tier == "quick" else 4000
+        limit = 300 if self.tier == "quick" else 4500
         idx = list(range(len(self._spec_log)))
         self.rng.shuffle(idx)
+        # the self-reference stream is validated against gcc first (a fixed share of the budget)
+        sr_keys = {self.key(c) for c in getattr(self, "_selfref", [])[:(60 if self.tier == "quick" else 600)]}
+        first = [i for i in idx if self.key(self._spec_log[i][0]) in sr_keys]
+        idx = first + [i for i in idx if i not in set(first)]
+        self.oracle["selfref_cases_first"] = len(first)
         bad = []
         for i in idx:
             if self.oracle["cases"] >= limit:
